@@ -245,7 +245,8 @@ Definition entry (id d : bytes) (tm : Z) : bytes := encode_entry id (H d) (Z.of_
 Lemma entry_length : forall id d tm, PS id d tm -> length (entry id d tm) = entry_size_n.
 Proof.
   intros id d tm Hp. destruct (PS_ok _ _ _ Hp) as (_ & Li & Ht & Hs).
-  apply encode_entry_length; auto. lia.
+  unfold entry. apply encode_entry_length; [exact Li|apply H_len| |exact Ht].
+  split; [apply Nat2Z.is_nonneg|exact Hs].
 Qed.
 
 Lemma entry_nonempty : forall id d tm, entry id d tm <> [].
@@ -259,7 +260,8 @@ Definition Jc (s : sys) : Prop :=
   I1 H U (sfiles s) /\
   (forall out o, slast s (DatP out) = Some o -> exists c, sfiles s (DatP out) = Some c /\ is_prefix o c) /\
   (forall id c, sfiles s (IdxP id) = Some c -> good_idx (sfiles s) id c) /\
-  (forall id o, slast s (IdxP id) = Some o -> good_idx (sfiles s) id o).
+  (forall id o, slast s (IdxP id) = Some o -> good_idx (sfiles s) id o) /\
+  (forall id o, slast s (IdxP id) = Some o -> exists c, sfiles s (IdxP id) = Some c /\ c <> []).
 
 (* no file disappears, output files only grow, a non-empty index file stays non-empty *)
 Definition grows (s s' : sys) : Prop :=
@@ -337,7 +339,7 @@ Lemma Jc_upd_dat : forall s d c' lastv,
   (forall o, lastv = Some o -> is_prefix o c') ->
   Jc {| sfiles := upd (sfiles s) (DatP (H d)) (Some c'); slast := updl (slast s) (DatP (H d)) lastv |}.
 Proof.
-  intros s d c' lastv (Hi1 & Hj2 & Hj3 & Hj4) Ud Hp Hold Hlast. unfold Jc. cbn [sfiles slast].
+  intros s d c' lastv (Hi1 & Hj2 & Hj3 & Hj4 & Hj5) Ud Hp Hold Hlast. unfold Jc. cbn [sfiles slast].
   assert (forall id c, good_idx (sfiles s) id c -> good_idx (upd (sfiles s) (DatP (H d)) (Some c')) id c) as Hgood.
   { intros id c [Hn|(d1 & tm & Hps & Hc & Hf)]; [left; exact Hn|right]. exists d1, tm. split; [exact Hps|]. split; [exact Hc|].
     destruct (path_eq_dec (DatP (H d1)) (DatP (H d))) as [E|N].
@@ -345,7 +347,7 @@ Proof.
       assert (d1 = d) by (apply H_inj; assumption). subst d1. f_equal.
       apply prefix_full; [exact Hp|]. pose proof (prefix_length _ _ (Hold _ Hf)). apply prefix_length in Hp. lia.
     - rewrite upd_other by exact N. exact Hf. }
-  split; [|split; [|split]].
+  split; [|split; [|split; [|split]]].
   - intros out c Hc. destruct (path_eq_dec (DatP out) (DatP (H d))) as [E|N].
     + inversion E; subst out. rewrite upd_same in Hc. inversion Hc; subst. exists d. auto.
     + rewrite upd_other in Hc by exact N. apply Hi1. exact Hc.
@@ -354,16 +356,17 @@ Proof.
     + rewrite updl_other in Ho by exact N. rewrite upd_other by exact N. apply Hj2. exact Ho.
   - intros id c Hc. rewrite upd_other in Hc by discriminate. apply Hgood. apply Hj3. exact Hc.
   - intros id o Ho. rewrite updl_other in Ho by discriminate. apply Hgood. apply Hj4. exact Ho.
+  - intros id o Ho. rewrite updl_other in Ho by discriminate. rewrite upd_other by discriminate. apply (Hj5 id o Ho).
 Qed.
 
 Lemma Jc_upd_idx : forall s id c' lastv,
-  Jc s -> good_idx (sfiles s) id c' -> (forall o, lastv = Some o -> good_idx (sfiles s) id o) ->
+  Jc s -> good_idx (sfiles s) id c' -> (forall o, lastv = Some o -> good_idx (sfiles s) id o /\ c' <> []) ->
   Jc {| sfiles := upd (sfiles s) (IdxP id) (Some c'); slast := updl (slast s) (IdxP id) lastv |}.
 Proof.
-  intros s id c' lastv (Hi1 & Hj2 & Hj3 & Hj4) Hg Hlast. unfold Jc. cbn [sfiles slast].
+  intros s id c' lastv (Hi1 & Hj2 & Hj3 & Hj4 & Hj5) Hg Hlast. unfold Jc. cbn [sfiles slast].
   assert (forall out, upd (sfiles s) (IdxP id) (Some c') (DatP out) = sfiles s (DatP out)) as He
     by (intros out; apply upd_other; discriminate).
-  split; [|split; [|split]].
+  split; [|split; [|split; [|split]]].
   - intros out c Hc. rewrite He in Hc. apply Hi1. exact Hc.
   - intros out o Ho. rewrite updl_other in Ho by discriminate. rewrite He. apply Hj2. exact Ho.
   - intros id' c Hc. apply (good_idx_ext (sfiles s)); [exact He|].
@@ -374,17 +377,23 @@ Proof.
     destruct (path_eq_dec (IdxP id') (IdxP id)) as [E|N].
     + inversion E; subst id'. rewrite updl_same in Ho. apply Hlast. exact Ho.
     + rewrite updl_other in Ho by exact N. apply Hj4. exact Ho.
+  - intros id' o Ho. destruct (path_eq_dec (IdxP id') (IdxP id)) as [E|N].
+    + inversion E; subst id'. rewrite updl_same in Ho. rewrite upd_same. exists c'. split; [reflexivity|apply (Hlast o Ho)].
+    + rewrite updl_other in Ho by exact N. rewrite upd_other by exact N. apply (Hj5 id' o Ho).
 Qed.
 
 Lemma Jc_reset_last : forall s p, Jc s -> Jc {| sfiles := sfiles s; slast := updl (slast s) p None |}.
 Proof.
-  intros s p (Hi1 & Hj2 & Hj3 & Hj4). unfold Jc. cbn [sfiles slast]. split; [exact Hi1|]. split; [|split; [exact Hj3|]].
+  intros s p (Hi1 & Hj2 & Hj3 & Hj4 & Hj5). unfold Jc. cbn [sfiles slast]. split; [exact Hi1|]. split; [|split; [exact Hj3|split]].
   - intros out o Ho. destruct (path_eq_dec (DatP out) p) as [E|N].
     + rewrite E, updl_same in Ho. discriminate.
     + rewrite updl_other in Ho by exact N. apply Hj2. exact Ho.
   - intros id o Ho. destruct (path_eq_dec (IdxP id) p) as [E|N].
     + rewrite E, updl_same in Ho. discriminate.
     + rewrite updl_other in Ho by exact N. apply Hj4. exact Ho.
+  - intros id o Ho. destruct (path_eq_dec (IdxP id) p) as [E|N].
+    + rewrite E, updl_same in Ho. discriminate.
+    + rewrite updl_other in Ho by exact N. apply (Hj5 id o Ho).
 Qed.
 
 Lemma grows_same_files : forall s s', sfiles s' = sfiles s -> grows s s'.
@@ -487,7 +496,7 @@ Proof.
       * rewrite upd_other by exact N. exists c0. split; [exact Hc0|]. destruct p; [auto|apply prefix_refl].
     + intros _. apply (Jc_upd_idx s id _ (Some c) Js).
       * right. exists d, tm. auto.
-      * intros o Ho. inversion Ho; subst. exact Hgc.
+      * intros o Ho. inversion Ho; subst. split; [exact Hgc|apply entry_nonempty].
   - eexists. cbn [sfiles]. rewrite upd_same. split; [reflexivity|apply entry_nonempty].
   - cbn [sfiles]. rewrite upd_other by discriminate. exact Hd.
 Qed.
@@ -810,7 +819,7 @@ Definition conc_run (callss : list (list call)) (fs0 : files) (sched : list (nat
 Lemma Jc_init : forall fs, I1 H U fs -> (forall id c, fs (IdxP id) = Some c -> good_idx fs id c) -> Jc (init_sys fs).
 Proof.
   intros fs Hi1 Hidx. unfold Jc, init_sys. cbn [sfiles slast].
-  split; [exact Hi1|]. split; [intros out o Ho; discriminate|]. split; [exact Hidx|intros id o Ho; discriminate].
+  split; [exact Hi1|]. split; [intros out o Ho; discriminate|]. split; [exact Hidx|split; intros id o Ho; discriminate].
 Qed.
 
 Theorem conc_sound : forall callss fs0 sched,
@@ -843,7 +852,8 @@ Proof.
   destruct (PS_ok _ _ _ Hps) as (Ud & Li & Ht & Hs).
   exists d, tm. split; [exact Hps|].
   assert (entry_of fs id = Some (H d, Z.of_nat (length d), tm)) as Ee.
-  { unfold entry_of. rewrite Ec. apply entry_roundtrip; auto. lia. }
+  { unfold entry_of. rewrite Ec. unfold entry. apply entry_roundtrip; [exact Li|apply H_len| |exact Ht].
+    split; [apply Nat2Z.is_nonneg|exact Hs]. }
   unfold get_bytes, get_file. rewrite run_get_bytes, run_get_file. cbn [snd]. rewrite Ee.
   cbn [bytes_lookup file_lookup]. rewrite Hf, bytes_eqb_refl, Z.eqb_refl. auto.
 Qed.
